@@ -24,7 +24,8 @@ from ..ref import files as F
 ID = 'C18'
 LEVEL = 'fault_enumeration'
 DECIDING = ['offsets_enumerated', 'reads_raised', 'reads_returned_prefix', 'writer_selfcheck_ok', 'archive_offsets_enumerated',
-            'cuts_exactly_at_a_record_boundary', 'cuts_in_a_later_file_after_complete_first_file', 'recovery_reads']
+            'cuts_exactly_at_a_record_boundary', 'cuts_in_a_later_file_after_complete_first_file', 'recovery_reads',
+            'cuts_in_the_layout_discovery_file', 'cuts_inside_leading_blanks_of_a_data_line']
 RULE = ('crash points: a file of a small synthetic file set (2 replicas, 6-9 configurations; rwms 1.4/1.6/2.0, pbp, ms.dat energy density / '
         'plaquette / Qtop, gfms Qtop Wilson+Zeuthen / GF coupling, ms5_xsf, sfcf o/c/a, Hadrons hdf5) or an exported archive (json, dobs, pobs, csv; '
         'gz and plain) is cut at byte k; thorough enumerates every k in 0..len-1 of every file of every generated set (counter '
@@ -456,9 +457,14 @@ def case_sfcf(ctx, kind, idx, rng):
             vkeys[rel] = [(k_, bool(srng.integers(0, 2)), opts[(o0 + i_) % len(opts)]) for i_, k_ in enumerate(dict.fromkeys(pick))]
             if len(vkeys[rel]) == 1:
                 vkeys[rel].append((vkeys[rel][0][0], not vkeys[rel][0][1], opts[(o0 + 1) % len(opts)]))
+        # the files the reader uses to discover the layout (start line and T of every correlator): first configuration of the first replica.
+        # They are ALWAYS enumerated (seed8: a cut inside them changes what is read from every other file).
+        r_first = sorted(S.reps)[0]
+        layout_files = [rel for rel in rels if S.info[rel]['rep'] == r_first and (layout == 'a' or S.info[rel]['cfg'] == S.cfgs[r_first][0])]
         targets = rels
         if ctx.tier == 'quick' and len(rels) > 8:
-            targets = sorted(rels[i] for i in srng.choice(len(rels), size=8, replace=False))
+            rest = [x for x in rels if x not in layout_files]
+            targets = sorted(set(layout_files) | set(rest[i] for i in srng.choice(len(rest), size=max(1, 8 - len(layout_files)), replace=False)))
         points = []
         for rel in targets:
             size = len(content[rel])
@@ -473,6 +479,8 @@ def case_sfcf(ctx, kind, idx, rng):
                 marks += [info['header_end']]
                 for b in info['blocks']:
                     marks += [b['start'], b['data_end'], b['end']] + [x for sp in b['spans'] for x in sp]
+                    # every byte of the leading blanks / time index of every data line (cuts inside the whitespace of a line)
+                    marks += [x for sp in b['spans'] for x in range(sp[0], sp[1] + 1)]
             for k in offsets_for(ctx, srng, size, marks):
                 points.append((rel, k))
         mine = points[part::PARTS]
@@ -501,7 +509,17 @@ def case_sfcf(ctx, kind, idx, rng):
                 ctx.count('cuts_exactly_at_a_record_boundary')
             if inf['rep'] != min(S.reps) or (layout != 'a' and inf['cfg'] != S.cfgs[inf['rep']][0]):
                 ctx.count('cuts_in_a_later_file_after_complete_first_file')
-            for key, im, opt in vkeys[rel]:
+            else:
+                ctx.count('cuts_in_the_layout_discovery_file')
+            if layout != 'a' and any(sp[0] < k <= sp[1] and content[rel][sp[0]:k].strip() == b'' for b_ in inf['blocks'] for sp in b_['spans']):
+                ctx.count('cuts_inside_leading_blanks_of_a_data_line')
+            variants_here = list(vkeys[rel])
+            if layout != 'a' and rel in layout_files:
+                # a cut inside a data line of the layout-discovery file: the correlator that line belongs to is read as well
+                for b_ in inf['blocks']:
+                    if any(sp[0] <= k < sp[5] for sp in b_['spans']) and not any(v_[0] == b_['key'] for v_ in variants_here):
+                        variants_here.append((b_['key'], bool(k % 2), 'none'))
+            for key, im, opt in variants_here:
                 vname = '%s:%s:%s' % ('/'.join(str(x) for x in key), 'im' if im else 're', opt)
                 E.point(vname, setdig, rel, k)
                 ctx.count('judged:%s:%s' % (fmt, opt))
@@ -587,6 +605,8 @@ def case_sfcf(ctx, kind, idx, rng):
                         E.ok_prefix(where, 0)
                         continue
                     mech = 'number-cut-mid-digits' if where == 'inside-used-number' else 'wrong-numbers'
+                    if full is not None and isinstance(res, list) and 0 < len(res) < len(full) and matches(judge, ctx, res, full[:len(res)]):
+                        mech = 'fewer-time-slices-than-written'      # the numbers kept are right, the correlator is shortened for every configuration
                     t = ctx.trial()
                     judge(t, fmt, res, full or dropped, {'_ekw': {}})
                     ctx.violation('%s:%s' % (fmt, mech), {'file': rel, 'cut_at': k, 'size': len(content[rel]), 'cut_in': where, 'key': list(key), 'im': im, 'option': opt,
